@@ -1075,3 +1075,10 @@ def run(status, changed, read_src):
     """called at the end of rs2lean_loops.run"""
     run_u32s(status, changed, read_src)
     run_ntt(status, changed, read_src)
+    # BEGIN P06-C18: the loops of lattice.rs (tools/rs2lean_lattice.py -> TF/Gen/LatticeLoops.lean)
+    try:
+        import rs2lean_lattice
+        rs2lean_lattice.run(status, changed, read_src)
+    except Exception as ex:      # a crash is a refusal, never a guess
+        refuse(status, "lattice loops", ex)
+    # END P06-C18
